@@ -20,9 +20,9 @@ def build(tier, seed):
         I.append(rcv("c16_rcv_n%d_w%d_j%d_f%d_d%d" % (rep - 1, w, j, flen, dlen), w, 2, j, flen, rep=rep, dlen=dlen, oracle=ro))
     # the server's own sender facing a peer that acknowledges every copy: the N extra ACKs per block arrive stale; they
     # are not failed receives (state: up to 5 such ACKs already seen in this window, then one more event)
-    for rep, w, j, flen in ([(2, 1, 0, 3), (4, 2, 1, 4)] if tier == "quick" else [(2, 1, 0, 3), (4, 2, 1, 4), (3, 1, 0, 2), (3, 3, 2, 6)]):
+    for rep, w, j, flen in ([(2, 1, 0, 3), (4, 2, 1, 3)] if tier == "quick" else [(2, 1, 0, 3), (4, 2, 1, 3), (3, 1, 0, 2), (3, 3, 2, 5)]):
         I.append(snd("c16_ack_every_copy_n%d_w%d_j%d_f%d" % (rep - 1, w, j, flen), w, 2, j, flen, rep=rep,
-                     oracle=so | omask("NOABORT", "RETRY"), r0=9))
+                     oracle=so | omask("NOABORT", "RETRY"), r0=9, mem_kb=12 * 1024 * 1024))
     # N = 254 (repeat count 255): a 255-fold unrolled burst did not finish (CBMC error after 10 min); covered only by the
     # flag parser (254 accepted, 255 rejected) and by the repeat loop being the same code for every count
     # initial reply sent exactly once is part of C09's accept_request harness; the flag itself:
